@@ -196,6 +196,7 @@ def analyse_wrapper(mod, cfg, fn, op, ty, var, names):
                 want = T.rep(want, W)
             want = T.canon(want)
             d = first_diff(got, want)
+            res['fp'] = hashlib.sha1(T.fmt(got, 60).encode()).hexdigest()[:12]
             res.update(status='mismatch', lane=i, got=T.fmt(got, 8)[:1500], want=T.fmt(want, 8)[:1500],
                        diff_path=d[0], diff_got=T.fmt(d[1], 4)[:400], diff_want=T.fmt(d[2], 4)[:400],
                        chain=src_of(d[1]) or src_of(got))
